@@ -610,10 +610,17 @@ func c20Check(s *c20State, r *verifmc.Report) string {
 		}
 	}
 	if le := len(s.r.context.equivocations.bits); le > 0 {
-		lb, _ := s.r.graph.entries.Get(c.hash[0])
-		if ln := len(lb.cumulativeVote.bits.bits); le > ln {
+		longer, shorter := false, false
+		s.r.graph.entries.Scan(func(_ string, en voteGraphEntry[string, uint32, *voteNode[string], vote[string]]) bool {
+			ln := len(en.cumulativeVote.bits.bits)
+			longer = longer || le > ln
+			shorter = shorter || ln > le
+			return true
+		})
+		if longer {
 			c20SkipCount[c20ShEqvLonger].Add(1)
-		} else if ln > le {
+		}
+		if shorter {
 			c20SkipCount[c20ShNodeLonger].Add(1)
 		}
 	}
@@ -819,6 +826,8 @@ func c20Configs() []*c20Cfg {
 	v211 := c20VoterCfg{"2+1+1", []uint64{2, 1, 1}, c20Seq(3)}
 	v3 := c20VoterCfg{"3x1", []uint64{1, 1, 1}, c20Seq(3)}
 	v2111 := c20VoterCfg{"2+1+1+1", []uint64{2, 1, 1, 1}, c20Seq(4)}
+	// T=4 f=1 t=3: the weight-3 voter alone is a supermajority, the weight-1 voter may equivocate within f
+	v31 := c20VoterCfg{"3+1", []uint64{3, 1}, c20Seq(2)}
 	// 35 voters: the four active ones sit at positions 0, 31, 32, 34 (bit words 0 and 1 of the
 	// bitfields), weight 100 each; 31 fillers of weight 1 never vote.  T=431 f=143 t=288: three
 	// active voters reach the threshold, one active equivocator is tolerated.
@@ -834,9 +843,9 @@ func c20Configs() []*c20Cfg {
 		plans = map[int][]c20Plan{
 			1: {{v4, 8, true, false, true, "id", false}, {v211, 7, false, true, true, "id", false}, {v3, 6, false, false, true, "id", false}, {wide, 7, true, false, true, "id", false}},
 			2: {{v4, 7, true, false, true, "idrev", false}, {v211, 7, false, true, true, "idrev", false}, {v3, 6, false, false, true, "idrev", false}, {wide, 6, true, false, true, "idrev", false}},
-			3: {{v211, 6, false, false, false, "idrev", false}, {v211, 5, false, true, true, "other", false}, {v4, 6, true, false, false, "idrev", false}, {wide, 6, true, false, false, "id", false}},
-			4: {{v211, 5, true, false, false, "idrev", false}, {v4, 6, true, false, false, "id", true}},
-			5: {{v211, 5, true, false, false, "id", true}},
+			3: {{v211, 6, false, false, false, "idrev", false}, {v211, 5, false, true, true, "other", false}, {v4, 6, true, false, false, "id", false}, {wide, 6, true, false, false, "id", false}},
+			4: {{v211, 5, true, false, false, "idrev", false}, {v31, 6, false, false, false, "idrev", false}},
+			5: {{v31, 5, false, false, false, "id", true}, {v31, 4, false, false, false, "idrev", false}},
 		}
 	} else {
 		plans = map[int][]c20Plan{
@@ -844,7 +853,7 @@ func c20Configs() []*c20Cfg {
 			2: {{v4, 8, true, false, true, "idrev", false}, {v211, 8, false, true, true, "idrev", false}, {v3, 7, false, false, true, "idrev", false}, {wide, 7, true, false, true, "idrev", false}, {v2111, 7, true, false, true, "idrev", false}},
 			3: {{v211, 7, false, false, false, "all", false}, {v211, 6, false, true, true, "all", false}, {v4, 7, true, false, false, "idrev", false}, {v4, 6, false, false, true, "id", false}, {wide, 7, true, false, false, "idrev", false}, {v2111, 7, true, false, false, "idrev", false}},
 			4: {{v211, 6, true, false, false, "all", false}, {v211, 6, false, true, true, "id", false}, {v4, 7, true, false, false, "id", false}, {wide, 6, true, false, false, "id", true}, {v2111, 6, true, false, false, "id", true}},
-			5: {{v211, 6, true, false, false, "idrev", false}, {v4, 6, true, false, false, "id", true}},
+			5: {{v211, 6, true, false, false, "idrev", false}, {v4, 6, true, false, false, "id", true}, {v31, 6, false, false, false, "idrev", false}},
 		}
 	}
 	for n := 1; n <= 5; n++ {
